@@ -1,8 +1,11 @@
-"""C09 - Literal <-> Python value mapping: correspondence between coq/Literal/Model.v and
-rdflib/term.py (Literal.__new__, normalize, eq, __eq__, _castLexicalToPython, _castPythonToLiteral,
-_well_formed_*, _parseBoolean) for the integer types, boolean, decimal and the string family, and a
-conformance-only suite (no Coq model behind it, only an oracle written here) for float/double,
-date/time/dateTime, durations, hexBinary/base64Binary, XML literals and bytes."""
+"""C09 - Literal <-> Python value mapping: correspondence between the Coq models and rdflib/term.py
+(Literal.__new__, normalize, eq, __eq__, _castLexicalToPython, _castPythonToLiteral, _well_formed_*, _parseBoolean):
+suite `literal` (coq/Literal/Model.v): integer types, boolean, decimal, string family;
+suite `binary` (coq/Literal/BinaryModel.v): hexBinary, base64Binary with the hexlify/unhexlify/b64 codecs;
+suite `temporal` (coq/Literal/TemporalModel.v): date, time, dateTime on lexical forms of the XSD shape, and
+python date/time/datetime values;
+suite `conformance` (no Coq model, only an oracle written here): float/double, durations, bytes, and again
+date/time/binary forms of any shape."""
 from __future__ import annotations
 
 import logging
@@ -24,13 +27,15 @@ from rdflib.xsd_datetime import Duration  # noqa: E402
 
 TRUSTED = [
     "Coq 8.16.1 kernel and vm_compute",
-    "coq/Literal/Model.v second half: the XSD lexical spaces / lexical-to-value maps (xsd_value, xsd_range, denote) "
-    "as a reading of XML Schema part 2",
-    "CPython's int(str), Decimal(str), format(Decimal,'f'), str.strip, str.lower as modelled in Model.v "
-    "(character classes reflected from the running interpreter by harness/reflect_literal.py)",
-    "harness/c09.py: canonicalisation of python values (type(v) is int/bool/Decimal/str, Decimal.as_tuple), "
-    "and - for the conformance suite only - the XSD oracle written in this file",
-    "harness/reflect_literal.py: probing of the _well_formed_* checkers (interval, empty form, accepted forms)",
+    "the XSD sides of coq/Literal/Model.v, BinaryModel.v, TemporalModel.v (lexical spaces, lexical-to-value maps, "
+    "xsd_range, denote, seven-property date/time values, the guard in_guard) as a reading of XML Schema part 2",
+    "CPython's int(str), Decimal(str), format(Decimal,'f'), str.strip, str.lower, binascii.unhexlify/hexlify, "
+    "binascii.a2b_base64 (non-strict) / b64encode, and date/time/datetime.fromisoformat / isoformat on forms of the "
+    "XSD shape, as modelled (character classes reflected from the running interpreter by harness/reflect_literal.py)",
+    "harness/c09.py: canonicalisation of python values (type(v) is int/bool/Decimal/str/bytes/date/time/datetime, "
+    "Decimal.as_tuple, utcoffset in minutes), and - for the conformance suite only - the XSD oracle written in this file",
+    "harness/reflect_literal.py: identification of converters / lexicalisers by object identity and probing of the "
+    "_well_formed_* checkers (interval, empty form, accepted forms)",
 ]
 ASSUMPTIONS = [
     "lexical forms have fewer than 4300 digits (CPython's int<->str conversion limit) and Decimal exponents stay "
@@ -38,7 +43,11 @@ ASSUMPTIONS = [
     "no language tags; rdflib.NORMALIZE_LITERALS and DAWG_LITERAL_COLLATION at the values reflected / default",
     "sNaN and NaN-with-payload forms of Decimal are outside the model (never generated for the modelled suite)",
     "xsd:float is judged with double precision (rdflib maps both float and double to Python float)",
-    "float/double, date/time/duration, binary, XML literals: sampled against the oracle only, nothing proved",
+    "float/double, durations, XML literals, python bytes values: sampled against the oracle only, nothing proved",
+    "temporal model: only lexical forms of the XSD shape ([-]Y{4,}-MM-DD, hh:mm:ss[.f+], T separator, Z|+-hh:mm) are "
+    "offered to it; python's fromisoformat accepts further ISO 8601 forms, which stay in the conformance suite; "
+    "python values: utcoffset in whole minutes of at most 14:00 (python allows up to 23:59, which isoformat() writes "
+    "as a zone outside the XSD lexical space); no pairs (eq across different offsets is not modelled)",
     "nothing is demanded about forms outside the lexical space of the datatype (flag, value): the property constrains "
     "valid forms; accepted invalid forms are only counted in the evidence distribution (invalid_form_not_flagged_*, "
     "overaccepted_not_judged_*); 'term equality implies eq' is not demanded of decimals built from invalid forms "
@@ -901,4 +910,304 @@ class C09Conf(Suite):
                     yield c2
 
 
-SUITES = [C09(), C09Conf()]
+# ====================================================================== binary suite (modelled: coq/Literal/BinaryModel.v)
+def cbytes(b):
+    return clist(cN(x) for x in b)
+
+
+def obs_blit(x):
+    v = x.value
+    return {"lex": str.__str__(x), "ill": x.ill_typed, "val": None if v is None else (list(v) if type(v) is bytes else "other")}
+
+
+def coq_blit(o):
+    return ("{| b_lex := " + cstr(o["lex"]) + "; b_ill := " + copt(o["ill"], cbool) + "; b_val := "
+            + copt(o["val"], cbytes) + " |}")
+
+
+B64ALPHA = "ABCDEFGHIJKLMNOPQRSTUVWXYZabcdefghijklmnopqrstuvwxyz0123456789+/"
+
+
+def gen_bin_form(rng, d):
+    import base64
+    raw = bytes(rng.choice([0, 1, 97, 98, 255, 0xAB, 0x7F, 0x80, 0xFE, 62 * 4, 63 * 4 + 3, 0x10, 0x0F])
+                for _ in range(rng.choice([0, 1, 1, 2, 2, 3, 3, 4, 5, 6, 7])))
+    if d == "hexBinary":
+        s = "".join(rng.choice([f"{b:02x}", f"{b:02X}", f"{b:02x}".capitalize()]) for b in raw)
+        r = rng.random()
+        if r < 0.25:
+            i = rng.randrange(0, len(s) + 1)
+            s = rng.choice([s + "0", s[:i] + "g" + s[i:], " " + s, s + " ", "0x" + s, s + "\n", s[:i] + " " + s[i:],
+                            s[:i] + "é" + s[i:], s[1:], s[:i] + "G0" + s[i:], s + "/", s[:i] + ":" + s[i:], s + "@`"])
+        return s
+    s = base64.b64encode(raw).decode()
+    r = rng.random()
+    if r < 0.3 and s:   # XSD allows single blanks between characters
+        out = []
+        for ch in s:
+            out.append(ch)
+            if rng.random() < 0.3:
+                out.append(" ")
+        s = "".join(out).rstrip(" ") if rng.random() < 0.8 else "".join(out)
+    elif r < 0.6:
+        i = rng.randrange(0, len(s) + 1)
+        s = rng.choice([s.rstrip("="), s + "=", s + "A", "*" + s, s[:i] + "-" + s[i:], s + "é", s[:i] + "=" + s[i:],
+                        s[:i] + "  " + s[i:], " " + s, s + " ", s[:i] + "\n" + s[i:], s + s, s[:-1], s[:i] + "_" + s[i:],
+                        s.replace("=", "", 1), s[:-2] + rng.choice(B64ALPHA) + s[-1:] if len(s) > 1 else "A",
+                        s[:-3] + rng.choice(B64ALPHA) + s[-2:] if len(s) > 2 else "AB", s + "==", "=" + s, s[:i] + "\x7f" + s[i:]])
+    return s
+
+
+class C09Binary(Suite):
+    name = "binary"
+    imports = "From RV Require Import Literal.BinaryModel."
+    case_ty = "bcase"
+    obs_ty = "bobs"
+    model = "bmodel_obs"
+    oeq = "bobs_eqb"
+    spec = "bspec_ok"
+    kf = "bkf"
+    kf_ids = {}
+    corr = ("Literal.__new__/normalize/eq for xsd:hexBinary and xsd:base64Binary: term._unhexlify, binascii.hexlify, "
+            "base64.b64decode, base64.b64encode, _castPythonToLiteral specific rules")
+    quick_n = 700
+    thorough_n = 15000
+
+    def gen(self, rng, i):
+        if rng.random() < 0.75:
+            d = rng.choice(["hexBinary", "base64Binary"])
+            return {"k": "blex", "d": d, "l": gen_bin_form(rng, d), "n": rng.random() < 0.7}
+        d1 = rng.choice(["hexBinary", "base64Binary"])
+        d2 = d1 if rng.random() < 0.85 else rng.choice(["hexBinary", "base64Binary"])
+        l1 = gen_bin_form(rng, d1)
+        r = rng.random()
+        l2 = l1 if r < 0.2 else l1.lower() if r < 0.35 else l1.upper() if r < 0.45 else l1.replace(" ", "") if r < 0.6 \
+            else gen_bin_form(rng, d2)
+        return {"k": "bpair", "d1": d1, "l1": l1, "n1": rng.random() < 0.7, "d2": d2, "l2": l2, "n2": rng.random() < 0.7}
+
+    def run_impl(self, c):
+        if c["k"] == "blex":
+            dt = XSD[c["d"]]
+            x = Literal(c["l"], datatype=dt, normalize=c["n"])
+            n1 = x.normalize()
+            n2 = n1.normalize()
+            re_ = Literal(str.__str__(x), datatype=dt, normalize=True)
+            return {"x": obs_blit(x), "n1": obs_blit(n1), "n2": obs_blit(n2), "re": obs_blit(re_),
+                    "eq": eqres(x, n1), "same": bool(x == n1),
+                    "dts": [dt_local(y.datatype) for y in (x, n1, n2, re_)]}
+        a = Literal(c["l1"], datatype=XSD[c["d1"]], normalize=c["n1"])
+        b = Literal(c["l2"], datatype=XSD[c["d2"]], normalize=c["n2"])
+        return {"same": bool(a == b), "eq": eqres(a, b)}
+
+    @staticmethod
+    def _d(d):
+        return "BHex" if d == "hexBinary" else "BB64"
+
+    def coq_case(self, c):
+        if c["k"] == "blex":
+            return f"BLex {self._d(c['d'])} {cstr(c['l'])} {cbool(c['n'])}"
+        return (f"BPair {self._d(c['d1'])} {cstr(c['l1'])} {cbool(c['n1'])} "
+                f"{self._d(c['d2'])} {cstr(c['l2'])} {cbool(c['n2'])}")
+
+    def coq_obs(self, o):
+        if "re" in o:
+            if len(set(o["dts"])) != 1 or any(o[k]["val"] == "other" for k in ("x", "n1", "n2", "re")):
+                return "OBBad"
+            return (f"OBLex {coq_blit(o['x'])} {coq_blit(o['n1'])} {coq_blit(o['n2'])} {coq_blit(o['re'])} "
+                    f"{o['eq']} {cbool(o['same'])}")
+        return f"OBPair {cbool(o['same'])} {o['eq']}"
+
+    def nontrivial(self, c, o):
+        return o["x"]["val"] is not None if "x" in o else True
+
+    def features(self, c, o):
+        f = {"kind_" + c["k"]: 1}
+        if c["k"] == "blex":
+            f["dt_" + c["d"]] = 1
+            f["accepted" if o["x"]["val"] is not None else "rejected"] = 1
+            if o["x"]["lex"] != c["l"]:
+                f["lex_rewritten"] = 1
+        else:
+            f["eq_" + o["eq"]] = 1
+        return f
+
+    def shrink(self, c):
+        for key in ("l", "l1", "l2"):
+            if key in c:
+                s = c[key]
+                for i in range(len(s)):
+                    yield dict(c, **{key: s[:i] + s[i + 1:]})
+
+    def sweep(self):
+        alpha = ["A", "Q", "g", "/", "=", " ", "B", "*"]
+        import itertools
+        for n in range(0, 6):
+            for t in itertools.product(alpha, repeat=n):
+                yield {"k": "blex", "d": "base64Binary", "l": "".join(t), "n": True}
+        for n in range(0, 5):
+            for t in itertools.product(["0", "a", "F", "g", " "], repeat=n):
+                yield {"k": "blex", "d": "hexBinary", "l": "".join(t), "n": n % 2 == 0}
+
+
+# ====================================================================== temporal suite (modelled: coq/Literal/TemporalModel.v)
+def canon_tval(v):
+    def off(o):
+        if o is None:
+            return None
+        sec = o.total_seconds()
+        return int(sec // 60) if sec % 60 == 0 else "other"
+    if v is None:
+        return None
+    if type(v) is datetime:
+        return ["datetime", v.year, v.month, v.day, v.hour, v.minute, v.second, v.microsecond, off(v.utcoffset())]
+    if type(v) is date:
+        return ["date", v.year, v.month, v.day]
+    if type(v) is time:
+        return ["time", v.hour, v.minute, v.second, v.microsecond, off(v.utcoffset())]
+    return ["other"]
+
+
+def coq_tval(cv):
+    if cv[0] == "date":
+        return f"(VDate {cN(cv[1])} {cN(cv[2])} {cN(cv[3])})"
+    if cv[0] == "time":
+        return "(VTime " + " ".join(cN(x) for x in cv[1:5]) + " " + copt(cv[5], cZ) + ")"
+    return "(VDateTime " + " ".join(cN(x) for x in cv[1:8]) + " " + copt(cv[8], cZ) + ")"
+
+
+def tval_bad(cv):
+    return cv is not None and (cv[0] == "other" or cv[-1] == "other")
+
+
+def obs_tlit(x):
+    return {"lex": str.__str__(x), "ill": x.ill_typed, "val": canon_tval(x.value)}
+
+
+def coq_tlit(o):
+    return ("{| t_lex := " + cstr(o["lex"]) + "; t_ill := " + copt(o["ill"], cbool) + "; t_val := "
+            + copt(o["val"], coq_tval) + " |}")
+
+
+T_YEARS = ["2020", "1999", "0001", "9999", "2000", "1900", "0000", "-0001", "10000", "-2020", "0100", "2024", "12345",
+           "02020", "-0000", "2021", "0400"]
+T_MD = ["01-01", "12-31", "02-28", "02-29", "02-30", "06-15", "04-30", "04-31", "11-30", "00-10", "13-01", "10-00", "10-32"]
+T_HMS = ["00:00:00", "12:34:56", "23:59:59", "24:00:00", "01:02:03", "23:59:60", "12:00:00", "12:60:00", "25:00:00",
+         "24:00:01", "09:05:07"]
+T_FRAC = ["", "", "", ".5", ".123", ".123456", ".000001", ".1234567", ".0", ".000", ".9999999", ".1234560", ".0000000",
+          ".1234565000", ".50", ".000000"]
+T_TZ = ["", "", "", "Z", "+00:00", "-00:00", "+14:00", "-14:00", "+05:30", "-09:00", "+13:59", "+14:01", "+15:00", "+23:59",
+        "+24:00", "+01:60", "-23:60", "-13:59", "+00:01"]
+T_OFFS = [None, None, 0, 330, -540, 840, -840, 1, -1, 839]  # XSD time zones: at most 14:00 either way
+
+
+def gen_tform(rng, d):
+    ymd = rng.choice(T_YEARS) + "-" + rng.choice(T_MD)
+    hms = rng.choice(T_HMS) + rng.choice(T_FRAC)
+    if d == "date":
+        return ymd + rng.choice(T_TZ)
+    if d == "time":
+        return hms + rng.choice(T_TZ)
+    return ymd + "T" + hms + rng.choice(T_TZ)
+
+
+class C09Temporal(Suite):
+    name = "temporal"
+    imports = "From RV Require Import Literal.TemporalModel."
+    case_ty = "tcase"
+    obs_ty = "tobs"
+    model = "tmodel_obs"
+    oeq = "tobs_eqb"
+    spec = "tspec_ok"
+    kf = "tkf"
+    kf_ids = {7: "F14g"}
+    corr = ("Literal.__new__/normalize/eq for xsd:date, xsd:time, xsd:dateTime on forms of the XSD shape: "
+            "xsd_datetime.parse_xsd_date, date/time/datetime.fromisoformat, .isoformat()")
+    quick_n = 700
+    thorough_n = 15000
+
+    def gen(self, rng, i):
+        if rng.random() < 0.8:
+            d = rng.choice(["date", "time", "dateTime", "dateTime"])
+            return {"k": "tlex", "d": d, "l": gen_tform(rng, d), "n": rng.random() < 0.7}
+        k = rng.choice(["date", "time", "datetime", "datetime"])
+        y, m = rng.choice([1, 999, 1900, 2000, 2020, 2024, 9999]), rng.choice([1, 2, 4, 12])
+        dd = rng.choice([1, 28, 29, 30, 31])
+        dd = min(dd, days_in_month(y, m))
+        h, mi, sec = rng.choice([0, 9, 12, 23]), rng.choice([0, 5, 59]), rng.choice([0, 7, 59])
+        us = rng.choice([0, 0, 1, 500000, 999999, 123456, 100, 120000])
+        tz = rng.choice(T_OFFS)
+        if k == "date":
+            return {"k": "tpy", "v": ["date", y, m, dd]}
+        if k == "time":
+            return {"k": "tpy", "v": ["time", h, mi, sec, us, tz]}
+        return {"k": "tpy", "v": ["datetime", y, m, dd, h, mi, sec, us, tz]}
+
+    @staticmethod
+    def _mk(cv):
+        if cv[0] == "date":
+            return date(cv[1], cv[2], cv[3])
+        tz = None if cv[-1] is None else timezone(timedelta(minutes=cv[-1]))
+        if cv[0] == "time":
+            return time(cv[1], cv[2], cv[3], cv[4], tzinfo=tz)
+        return datetime(*cv[1:8], tzinfo=tz)
+
+    def run_impl(self, c):
+        if c["k"] == "tlex":
+            dt = XSD[c["d"]]
+            x = Literal(c["l"], datatype=dt, normalize=c["n"])
+            n1 = x.normalize()
+            n2 = n1.normalize()
+            re_ = Literal(str.__str__(x), datatype=dt, normalize=True)
+            return {"x": obs_tlit(x), "n1": obs_tlit(n1), "n2": obs_tlit(n2), "re": obs_tlit(re_),
+                    "eq": eqres(x, n1), "same": bool(x == n1),
+                    "dts": [dt_local(y.datatype) for y in (x, n1, n2, re_)]}
+        x = Literal(self._mk(c["v"]))
+        back = Literal(str.__str__(x), datatype=x.datatype)
+        return {"dt": dt_local(x.datatype), "x": obs_tlit(x), "back": obs_tlit(back), "eq": eqres(x, back)}
+
+    _D = {"date": "TDate", "time": "TTime", "dateTime": "TDateTime"}
+
+    def coq_case(self, c):
+        if c["k"] == "tlex":
+            return f"TLex {self._D[c['d']]} {cstr(c['l'])} {cbool(c['n'])}"
+        return f"TPy {coq_tval(c['v'])}"
+
+    def coq_obs(self, o):
+        if "re" in o:
+            if len(set(o["dts"])) != 1 or any(tval_bad(o[k]["val"]) for k in ("x", "n1", "n2", "re")):
+                return "OTBad"
+            return (f"OTLex {coq_tlit(o['x'])} {coq_tlit(o['n1'])} {coq_tlit(o['n2'])} {coq_tlit(o['re'])} "
+                    f"{o['eq']} {cbool(o['same'])}")
+        if tval_bad(o["x"]["val"]) or tval_bad(o["back"]["val"]):
+            return "OTBad"
+        d = copt(self._D.get(o["dt"]))
+        return f"OTPy {d} {coq_tlit(o['x'])} {coq_tlit(o['back'])} {o['eq']}"
+
+    def nontrivial(self, c, o):
+        return o["x"]["val"] is not None
+
+    def features(self, c, o):
+        f = {"kind_" + c["k"]: 1}
+        if c["k"] == "tlex":
+            f["dt_" + c["d"]] = 1
+            f["accepted" if o["x"]["val"] is not None else "rejected"] = 1
+            if o["x"]["lex"] != c["l"]:
+                f["lex_rewritten"] = 1
+        return f
+
+    def shrink(self, c):
+        return []
+
+    def sweep(self):
+        for y in ["2020", "1900", "2000", "0001", "9999", "0000", "10000", "-0001"]:
+            for md in T_MD:
+                for tz in ["", "Z", "+14:00", "-00:00"]:
+                    yield {"k": "tlex", "d": "date", "l": y + "-" + md + tz, "n": True}
+        for hms in T_HMS:
+            for fr in T_FRAC[2:]:
+                for tz in T_TZ[2:]:
+                    yield {"k": "tlex", "d": "time", "l": hms + fr + tz, "n": fr != ".5"}
+                    yield {"k": "tlex", "d": "dateTime", "l": "2024-02-29T" + hms + fr + tz, "n": True}
+
+
+SUITES = [C09(), C09Conf(), C09Binary(), C09Temporal()]
